@@ -19,6 +19,7 @@ func init() {
 		ruleS17_4(c, "C17.S4")
 		ruleS17_5(c, "C17.S5")
 		ruleS17_6(c, "C17.S6")
+		ruleS17_7(c, "C17.S7")
 		ruleV1x(c, "C17.V1", []string{"simple.MakeFh"}, 1)
 		ruleV5(c, "C17.V5")
 	}
@@ -1315,3 +1316,125 @@ func ruleS17_6(c *Ctx, id string) {
 	compareCodec(c, id, "simple.Inode", c.fn(id, "simple.(*Inode).Encode"), c.fn(id, "simple.Decode"), inodesz, true)
 	compareCodec(c, id, "simple.Fh", c.fn(id, "simple.(Fh).MakeFh3"), c.fn(id, "simple.MakeFh"), 16, true)
 }
+
+// ruleS17_7: SimpleNFS announces maxfilesize = one block and Inode.Write
+// accepts offset+count <= BlockSize.  SETATTR has a size test of its own (it
+// allocates newsize-Size bytes before Write is asked): the largest size that
+// test lets through must be the announced one, or SETATTR refuses a size WRITE
+// reaches and FSINFO announces (or, the other way, lets through what Write
+// refuses).
+func ruleS17_7(c *Ctx, id string) {
+	P, R := c.P, c.R
+	R.Rule(id, "the size limits of SimpleNFS agree: the largest size SETATTR's own test accepts is the maxfilesize FSINFO announces (one block, the bound of Inode.Write)", 1)
+	h := c.fn(id, "simple.(*Nfs).NFSPROC3_SETATTR")
+	fi := c.fn(id, "simple.(*Nfs).NFSPROC3_FSINFO")
+	if h == nil || fi == nil {
+		return
+	}
+	var maxfs int64 = -1
+	for _, b := range fi.Blocks {
+		for _, in := range b.Instrs {
+			if st, ok := in.(*ssa.Store); ok && strings.HasSuffix(fieldPath(st.Addr), "Maxfilesize") {
+				maxfs, _ = constIntDeep(st.Val)
+			}
+		}
+	}
+	isReqSize := func(sc Scope, v ssa.Value) bool {
+		v = sc.S.resolve(stripConv(v))
+		u, ok := v.(*ssa.UnOp)
+		if !ok || u.Op != token.MUL {
+			return false
+		}
+		return strings.HasSuffix(fieldPath(u.X), "New_attributes.Size.Size")
+	}
+	n := 0
+	// the handler and the functions of package simple it reaches (the request is handed on by value)
+	var scopes []Scope
+	seenFn := map[*ssa.Function]bool{}
+	var visit func(f *ssa.Function, d int)
+	visit = func(f *ssa.Function, d int) {
+		if f == nil || seenFn[f] || d > 4 || f.Blocks == nil || funcPkg(f) == nil || funcPkg(f) != funcPkg(h) {
+			return
+		}
+		seenFn[f] = true
+		for _, sc := range scopesOf(f) {
+			scopes = append(scopes, sc)
+			for _, b := range sc.Fn.Blocks {
+				for _, in := range b.Instrs {
+					if _, ok := in.(ssa.CallInstruction); ok {
+						visit(staticCallee(in), d+1)
+					}
+				}
+			}
+		}
+	}
+	visit(h, 0)
+	for _, sc := range scopes {
+		for _, b := range sc.Fn.Blocks {
+			for _, in := range b.Instrs {
+				bo, ok := in.(*ssa.BinOp)
+				if !ok {
+					continue
+				}
+				op, x, y := bo.Op, bo.X, bo.Y
+				if _, isk := constIntDeep(x); isk {
+					x, y, op = y, x, flipOp(op)
+				}
+				k, isk := constIntDeep(sc.S.resolve(y))
+				if !isk || !isReqSize(sc, x) {
+					continue
+				}
+				// which edge refuses?  the one whose block stores a failing status
+				iff, isIf := b.Instrs[len(b.Instrs)-1].(*ssa.If)
+				if !isIf || iff.Cond != ssa.Value(bo) {
+					continue
+				}
+				// the refusing edge is the one from which the work of SETATTR (a write of the file or of its size)
+				// cannot be reached any more
+				refuses := func(blk *ssa.BasicBlock) bool {
+					seenB := map[*ssa.BasicBlock]bool{}
+					work := []*ssa.BasicBlock{blk}
+					for len(work) > 0 {
+						x := work[len(work)-1]
+						work = work[:len(work)-1]
+						if seenB[x] {
+							continue
+						}
+						seenB[x] = true
+						for _, i2 := range x.Instrs {
+							if st, ok := i2.(*ssa.Store); ok && strings.HasSuffix(fieldPath(st.Addr), "Size") && !strings.Contains(fieldPath(st.Addr), "New_attributes") {
+								if nm, _, _ := FieldOf(st.Addr); nm != nil && nm.Obj().Name() == "Inode" {
+									return false
+								}
+							}
+							if cl, ok := i2.(*ssa.Call); ok {
+								if g := staticCallee(cl); g != nil && (g.Name() == "Write" || g.Name() == "WriteInode") && funcPkg(g) == funcPkg(h) {
+									return false
+								}
+							}
+						}
+						work = append(work, x.Succs...)
+					}
+					return true
+				}
+				var max int64
+				var decided bool
+				switch {
+				case refuses(b.Succs[0]) && !refuses(b.Succs[1]):
+					max, decided = acceptedMax(op, k)
+				case refuses(b.Succs[1]) && !refuses(b.Succs[0]):
+					max, decided = acceptedMax(negOp(op), k)
+				}
+				n++
+				R.Analysed[FuncName(sc.Fn)] = true
+				key := fmt.Sprintf("simple.SETATTR|size test#%d accepts up to maxfilesize", n)
+				if !decided {
+					R.Undecided(id, key, P.Pos(in.Pos()), "the test of the requested size against a constant refuses on one edge", fmt.Sprintf("size %s %d: the refusing edge or the operator was not recognised", op, k))
+					continue
+				}
+				R.Check(max == maxfs, id, key, P.Pos(in.Pos()), fmt.Sprintf("SETATTR accepts sizes up to %d, the announced maxfilesize", maxfs), fmt.Sprintf("refuses size %s %d", op, k), fmt.Sprintf("SETATTR's own test accepts sizes up to %d but FSINFO announces (and Inode.Write accepts) %d: a size between the two is refused by one procedure and reached by the other", max, maxfs))
+			}
+		}
+	}
+}
+
